@@ -602,6 +602,26 @@ theorem c20_allow_ebpf_table (env : Env) :
   unfold allowEBPF
   refine ⟨?_, ?_, ?_, ?_⟩ <;> intro h <;> simp [h] <;> intro h2 <;> simp [h2]
 
+/-- C20, "the list generated on a node": what a run of `terway-cli cni` leaves at `--output` is the rendering of the list it
+generated, whatever an earlier run left there (a longer file, a shorter one, none) -/
+theorem c20_generated_file_is_the_new_list (render : List Json → List UInt8) (env : Env) (ps out : List Json) (old : List UInt8)
+    (h : mergeConfigList env ps = .ok out) : generate render env ps old = .ok (render out) := by
+  simp [generate, h, writeFile]
+
+theorem c20_generated_file_ignores_previous (render : List Json → List UInt8) (env : Env) (ps : List Json) (old old' : List UInt8) :
+    generate render env ps old = generate render env ps old' := by
+  unfold generate; cases mergeConfigList env ps <;> rfl
+
+/-- why the truncation matters: a write at offset 0 that does not truncate leaves the tail of a longer old file behind the
+new document -/
+theorem c20_overwrite_keeps_tail (old new : List UInt8) (h : new.length < old.length) : overwrite old new ≠ new := by
+  intro he
+  have hl := congrArg List.length he
+  simp [overwrite] at hl
+  omega
+
+example : overwrite [1, 2, 3, 4] [9, 9] = [9, 9, 3, 4] ∧ writeFile [1, 2, 3, 4] [9, 9] = [9, 9] := by decide
+
 end chain
 
 end Terway.Props.C20
